@@ -95,7 +95,8 @@ claim("C04", "other",
       "orientation; SeismicRecording3C.__init__ normalises any orientation into [0,360) congruent modulo 360 and copies the components; "
       "single_azimuth (C01). Lemmas over those contracts and named A-TRIG instances: energy preservation, composition, invertibility, "
       "360-degree residues, polarisation recovery, single azimuth = north component after orienting, 180-degree antiperiodicity, rotation "
-      "invariance of |NS|^2+|EW|^2. Bounded (labelled): the processing-level consequences (azimuthal = stack of single-azimuth results, RotDpp "
+      "invariance of |NS|^2+|EW|^2. HvsrAzimuthal._check_input accepts an azimuth iff it lies in [0, 180] (ValueError otherwise) and anything but an HvsrTraditional is a TypeError. "
+      "Bounded (labelled): the processing-level consequences (azimuthal = stack of single-azimuth results, RotDpp "
       "within [min,max] over azimuths and non-decreasing in the percentile, rotation-invariant methods and diffuse field independent of "
       "orientation, preprocessing orients every record incl. target 0) evaluated natively.",
       TB + "cos/sin uninterpreted; only the named identities (Pythagoras, angle addition, parity, periodicity) are assumed, each lemma lists the instances it uses.",
